@@ -197,7 +197,11 @@ def construct(mon, path, kind, kw):
         obs["exc"] = e
     rec = mon.last or {"loaded": False, "created": False, "saved": False, "table": None}
     obs.update(loaded=rec["loaded"], created=rec["created"], saved=rec["saved"], table=rec["table"])
-    obs["ser"] = ser(rec["table"]) if rec["table"] is not None else None
+    try:
+        obs["ser"] = ser(rec["table"]) if rec["table"] is not None else None
+    except Exception as e:  # noqa: BLE001
+        # a table that cannot even be serialised (e.g. a stale table loaded for other grammar files)
+        obs["ser"] = "unserialisable table: %s: %s" % (type(e).__name__, str(e)[:100])
     return obs
 
 
